@@ -1,13 +1,26 @@
 (* C09 — Emit then load returns the same tree (round trip).
-   Model: Model/Emitter.v (need_quotes, escape_str, number text, layout; tables generated from emitter.rs in
-   Gen/EmitterTables.v), Model/Resolver.v (Scalar::parse_from_cow, Rust i64/f64 grammars), Gen/Escapes.v (scanner
-   escape table).  What is proved here are the scalar-level ingredients of the round trip, for ALL strings and all
-   64-bit integers (`..._partial`); the full tree-level statement is EmitterProofs.C09_full (a Definition, not
-   proved).  It is false for multiline_strings = true and for implicit keys longer than 1024 characters: the
-   `..._refuted` theorems evaluate the model pipeline on one witness per recorded defect class. *)
+   Model: Model/Emitter.v (need_quotes, escape_str, number text, the literal-block guard is_literal_block, the key
+   forms complex_key / is_long_key, layout; tables and guard flags generated from emitter.rs in Gen/EmitterTables.v),
+   Model/Resolver.v (Scalar::parse_from_cow, Rust i64/f64 grammars).  Specifications: Spec/QuotedLine.v (reading of
+   a double-quoted line over the scanner's escape table Gen/Escapes.v), Spec/BlockScalar.v (block scalars, from
+   property C05).
+   Spec/BlockLayout.v (the block-layout sublanguage of YAML with its denotation: the layout reader specification).
+   The full tree-level statement is EmitterFull.C09_full (a Definition, not proved).  Proved here, for ALL strings /
+   integers / trees (`..._partial`): the scalar-level ingredients of the round trip (T1-T4); that every string the
+   literal-block guard lets through is, as written by emit_literal_block, a block scalar whose specified value is
+   the string (T5, former findings K1-K5); that every key written in the implicit form fits the scanner's limit
+   (T6, former finding G1); that every scalar node in every position is presented in a form that reads back as
+   itself (T7); and, by induction on the tree, that the emitted text of every well-formed tree is a document of the
+   block-layout language denoting that tree (T8), so that C09_full is reduced to one statement about the loading
+   pipeline alone, [layout_reader_spec] (T9).
+   Missing for C09_full: [layout_reader_spec] itself (the scanner/parser/loader models read every document of
+   Spec/BlockLayout.v as the tree it denotes), and strings containing U+FEFF (the block-scalar specification, like
+   YAML, excludes it from block scalar content; the emitter writes it there and the scanner reads it back — covered
+   by the differential run only). *)
 From Coq Require Import List NArith ZArith Bool.
 Import ListNotations.
-Require Import Resolver CoreSchema Escapes CharTraits Emitter EmitterProofs.
+Require Import Resolver CoreSchema Escapes CharTraits Consts Loader QuotedLine BlockScalar BlockLayout Emitter EmitterProofs
+               EmitterBlock EmitterScalar EmitterFull EmitterTree.
 Open Scope N_scope.
 
 (* T1. A string the emitter writes plain (need_quotes = false) is read back by the resolver as that same string.
@@ -49,18 +62,78 @@ Theorem C09_int_text_partial : forall z, in_i64 z = true -> parse_from_cow (dec_
 Proof. exact int_text_round_trip. Qed.
 Print Assumptions C09_int_text_partial.
 
-(* The full statement fails on the faithful model exactly where the implementation fails (known findings). *)
-Theorem C09_multiline_K1_refuted : exists compact doc, wf_node doc = true /\ (max_key_len true doc <=? 1024) = true
-                                                       /\ round_trip_ok compact true doc = false.
-Proof. exact multiline_K1_refuted. Qed.
-Print Assumptions C09_multiline_K1_refuted.
-Theorem C09_multiline_K2_refuted : exists compact doc, wf_node doc = true /\ (max_key_len true doc <=? 1024) = true
-                                                       /\ round_trip_ok compact true doc = false.
-Proof. exact multiline_K2_refuted. Qed.
-Print Assumptions C09_multiline_K2_refuted.
-Theorem C09_long_key_refuted : exists compact doc, wf_node doc = true /\ round_trip_ok compact false doc = false.
-Proof. exact long_key_refuted. Qed.
-Print Assumptions C09_long_key_refuted.
+(* T5. The literal-block style (multiline_strings; former findings K1-K5).  For every string v that the guard
+   `YamlEmitter::is_literal_block` lets through — at any level, under any prefix, parent indentation and
+   continuation of the text — the text written by emit_literal_block is the rendering ([case_text], i.e.
+   [render_block]) of the block scalar [lit_case ...] of the specification Spec/BlockScalar.v: literal style, clip or
+   strip chomping, no indentation indicator, the lines of v indented by the emitter; and
+   (a) the value the specification assigns to that block scalar ([block_value]) is v;
+   (b) its text is prefix ++ emit_literal_block level v ++ continuation;
+   (c) the side conditions of the specification hold ([case_ok]: line texts, auto-detected indentation = the
+       emitter's, leading empty lines, no document-marker line at column 0, the end) provided v has no U+FEFF, the
+       content is indented more than the parent ([parent_min]) and the continuation is a less indented line.
+   The guard itself is the model of the Rust function with the generated flags lit_guard_*: removing a guard from
+   emitter.rs makes the bridging lemmas tbl_lit_guard_* false. *)
+Theorem C09_literal_block_value_partial : forall m level v, is_literal_block m level v = true ->
+  forall prefix parent eof, case_value (lit_case prefix parent level v eof) = v.
+Proof. exact literal_block_value. Qed.
+Print Assumptions C09_literal_block_value_partial.
+
+Theorem C09_literal_block_text_partial : forall m level v, is_literal_block m level v = true ->
+  forall prefix parent eof,
+  case_text (lit_case prefix parent level v eof) = prefix ++ emit_literal_block level v ++ eof_text eof.
+Proof. exact literal_block_text. Qed.
+Print Assumptions C09_literal_block_text_partial.
+
+Theorem C09_literal_block_side_conditions_partial : forall m level v, is_literal_block m level v = true ->
+  forall prefix parent eof,
+  ~ In 65279 v -> Nat.leb (parent_min parent) (ind_n level) = true -> eof_fits level parent eof = true ->
+  case_ok (lit_case prefix parent level v eof) = true.
+Proof. exact literal_block_case_ok. Qed.
+Print Assumptions C09_literal_block_side_conditions_partial.
+
+(* T6. Implicit keys (former finding G1).  A key that emit_mapping writes in the implicit form `key: value`
+   (complex_key = false: not a collection, not a literal block, not is_long_key) is one line of at most
+   SIMPLE_KEY_MAX characters — the scanner's limit from Gen/Consts.v — in every well-formed tree. *)
+Theorem C09_implicit_key_fits_partial : forall c m level k, wf_node k = true -> complex_key m level k = false ->
+  str_len (emit c m None level k) <= SIMPLE_KEY_MAX /\ ~ In 10 (emit c m None level k).
+Proof. exact implicit_key_fits. Qed.
+Print Assumptions C09_implicit_key_fits_partial.
+
+Theorem C09_implicit_keys_fit_partial : forall m doc, wf_node doc = true -> max_key_len m doc <= SIMPLE_KEY_MAX.
+Proof. exact implicit_keys_fit. Qed.
+Print Assumptions C09_implicit_keys_fit_partial.
+
+(* T7. Scalars in every position.  Every scalar node (null, boolean, 64-bit integer, float text, string without
+   U+FEFF), as emit_node writes it at any level — root, sequence item, mapping value, explicit key — under any parent
+   it is indented more than, is one of the three scalar presentations of Spec/BlockLayout.v (plain text satisfying
+   [plain_ok] whose resolver reading is the scalar; double-quoted line whose decoding is the string; block scalar of
+   Spec/BlockScalar.v satisfying [case_ok] whose value is the string) and the scalar it presents is the original.
+   As an implicit key it is moreover a one-line presentation of at most SIMPLE_KEY_MAX characters. *)
+Theorem C09_scalar_in_every_position_partial : forall c m p level n,
+  is_collection n = false -> wf_node n = true -> no_bom n = true ->
+  Nat.leb (parent_min p) (ind_n level) = true -> Scalar p (emit c m None level n) (scalar_of n).
+Proof. exact scalar_node. Qed.
+Print Assumptions C09_scalar_in_every_position_partial.
+
+Theorem C09_implicit_key_scalar_partial : forall c m level k, wf_node k = true -> complex_key m level k = false ->
+  KeyScalar (emit c m None level k) (scalar_of k).
+Proof. exact key_scalar. Qed.
+Print Assumptions C09_implicit_key_scalar_partial.
+
+(* T8. Trees.  For every well-formed tree without U+FEFF in its strings, under all four settings, the emitted text
+   is a document of the block-layout language and the tree it denotes is the original one.  By induction on the tree
+   (layout_all), the local fixpoints of emit being the entry lists of the grammar. *)
+Theorem C09_tree_is_layout_document_partial : forall c m doc, wf_node doc = true -> no_bom doc = true ->
+  Doc (dump_doc c m doc) (to_yaml doc).
+Proof. exact emitted_doc_denotes_tree. Qed.
+Print Assumptions C09_tree_is_layout_document_partial.
+
+(* T9. Hence the full statement (for U+FEFF-free trees) follows from the layout reader specification alone. *)
+Theorem C09_full_from_layout_reader_partial : layout_reader_spec ->
+  forall compact multiline doc, wf_node doc = true -> no_bom doc = true -> round_trip_ok compact multiline doc = true.
+Proof. exact full_from_layout_reader. Qed.
+Print Assumptions C09_full_from_layout_reader_partial.
 
 (* Non-vacuity: hypotheses are satisfiable, oracles are not constant. *)
 Example C09_plain_exists : need_quotes [97; 32; 45; 98] = false.
@@ -73,10 +146,37 @@ Example C09_decoder_rejects_bare_quote : dq_decode 5 [97; 34; 98] = None.
 Proof. vm_compute. reflexivity. Qed.
 Example C09_i64_min_text : dec_Z (- 2 ^ 63)%Z = [45; 57; 50; 50; 51; 51; 55; 50; 48; 51; 54; 56; 53; 52; 55; 55; 53; 56; 48; 56].
 Proof. vm_compute. reflexivity. Qed.
+(* the guard: lets ordinary multi-line strings through (the pinned outputs of the test-suite), stops the former defect classes *)
+Example C09_guard_accepts : forallb (is_literal_block true 0) [[98;97;114;33;10;98;97;114;33]; [97;10]; [10;97]; [97;10;32;98;10]] = true.
+Proof. vm_compute. reflexivity. Qed.
+Example C09_guard_rejects :
+  existsb (is_literal_block true 0) [[32;97;10;98]; [10;32;97]; [97;10;10]; [10]; [32;10]; [97]; [97;13;10]] = false
+  /\ existsb (is_literal_block true (-1)) [[9;97;10;98]; [97;10;46;46;46]; [45;45;45;10;97]] = false
+  /\ forallb (is_literal_block true 0) [[9;97;10;98]; [97;10;46;46;46]; [45;45;45;10;97]] = true.
+Proof. vm_compute. auto. Qed.
+Example C09_long_key_boundary :
+  is_long_key (repeat 97 1024) = false /\ is_long_key (repeat 97 1025) = true
+  /\ is_long_key (repeat 1 170) = false /\ is_long_key (repeat 1 171) = true.
+Proof. vm_compute. auto. Qed.
+(* instances of C09_full through the whole model pipeline: the witnesses of the former defect classes, under all four
+   settings, and a mixed tree *)
+Example C09_former_witnesses_round_trip :
+  forallb (fun w => wf_node w && round_trip_ok true true w && round_trip_ok false true w
+                    && round_trip_ok true false w && round_trip_ok false false w) former_witnesses = true.
+Proof. exact former_witnesses_ok. Qed.
 Example C09_full_instance :
-  wf_node sample_tree = true /\ (max_key_len false sample_tree <=? 1024) = true
-  /\ round_trip_ok true false sample_tree = true /\ round_trip_ok false false sample_tree = true.
+  wf_node sample_tree = true
+  /\ round_trip_ok true false sample_tree = true /\ round_trip_ok false false sample_tree = true
+  /\ round_trip_ok true true sample_tree = true /\ round_trip_ok false true sample_tree = true.
 Proof. exact sample_tree_ok. Qed.
 Example C09_literal_block_instance :
   round_trip_ok true true (NSeq [NStr [97; 10; 32; 98; 10]; NStr str_a_lf_b]) = true.
 Proof. exact literal_block_ok. Qed.
+(* T8 is not vacuous, and the layout reader specification holds on this instance *)
+Example C09_layout_instance :
+  Doc (dump_doc true true sample_tree) (to_yaml sample_tree)
+  /\ exists y', PipeL.run_load (dump_doc true true sample_tree) = PipeL.LDocs [y'] /\ yaml_eqb y' (to_yaml sample_tree) = true.
+Proof. exact sample_layout_instance. Qed.
+Example C09_pipeline_rejects_long_implicit_key :
+  PipeL.run_load ([45;45;45;10] ++ repeat 97 1025 ++ [58; 32; 55]) = PipeL.LErr.
+Proof. exact long_implicit_key_rejected. Qed.
